@@ -588,3 +588,153 @@ def run(ctx) -> None:  # noqa: F811
     ctx.require(n >= 6, f"R-NONEDEFAULT examined only {n} functions with window parameters")
     _inner_run_c10b(ctx)
 
+
+
+# ---- added after the mutation sweep: order of the window bounds, lengths derived from them, slice counters
+_inner_run_c10c = run
+
+
+def window_rules(ctx, funcs, floors=(0, 0, 0)) -> tuple:
+    """R-WINORDER / R-WINLEN / R-WINCOUNT over `funcs` (also applied by C08 to CrystalPotential.generate_slices)."""
+    from ..rules import window
+
+    n_order = n_len = n_cnt = 0
+    for f in funcs:
+        df = DataFlow(f.node)
+        n_order += window.check_order(ctx, "R-WINORDER", f, df)
+        n_len += window.check_length(ctx, "R-WINLEN", f, df)
+        n_cnt += window.check_counter(ctx, "R-WINCOUNT", f, df)
+    ctx.require(n_order >= floors[0], f"R-WINORDER examined only {n_order} ranges/slices over a window (expected >= {floors[0]})")
+    ctx.require(n_len >= floors[1], f"R-WINLEN examined only {n_len} lengths derived from a window (expected >= {floors[1]})")
+    ctx.require(n_cnt >= floors[2], f"R-WINCOUNT examined only {n_cnt} tests of a slice counter (expected >= {floors[2]})")
+    return n_order, n_len, n_cnt
+
+
+WINORDER_TEXT = ("a window is the half-open run [lo, hi) of slice indices given by (first_slice, last_slice) or by the "
+                 "(start, end) of one chunk of generate_chunks.  Every `range(a, b)` / `x[a:b]` whose bounds are the two "
+                 "members of one such pair (term normal form, up to a constant) runs from the lower to the upper member — "
+                 "`range(hi, lo)` is empty for every window; a slice `x[e : e + c]` with constant c <= 0 selects nothing")
+WINLEN_TEXT = ("every length derived from a window pair — an element of the shape of an allocation, of the chunks "
+               "declared to map_blocks, the number of items handed to generate_chunks — equals hi - lo as a term, and "
+               "the chunks start at lo: the eager array, the lazy chunks and the generators then agree on the number of "
+               "slices of a window")
+WINCOUNT_TEXT = ("a generator that numbers its slices with a running counter (0 before the loops, += 1 in the loop that "
+                 "yields) produces slice c iff first_slice <= c < last_slice: the arm that reaches the yield holds under "
+                 "c - first_slice >= 0, the arm that ends the generator under c - last_slice >= 0 (both shifted by one "
+                 "when the increment precedes the test), no path through the loop skips the increment, and a test on a "
+                 "window bound compares it with something that changes from pass to pass")
+
+
+def run(ctx) -> None:  # noqa: F811
+    ctx.rule("R-WINORDER", WINORDER_TEXT)
+    ctx.rule("R-WINLEN", WINLEN_TEXT)
+    ctx.rule("R-WINCOUNT", WINCOUNT_TEXT)
+    repo = ctx.repo
+    from ..rules import deferred
+
+    def new():
+        funcs = _window_generators(repo) + [repo.method(IAM, "_FieldBuilder", "build")]
+        window_rules(ctx, funcs, floors=(6, 5, 2))
+
+    deferred.run(ctx, new, _inner_run_c10c)
+
+
+# ---- added after the mutation sweep: the lazy arm declares as many new axes as its chunks add
+_inner_run_c10d = run
+
+
+def _seq_length(df, at: int, e: ast.AST, depth: int = 0):
+    """Symbolic length (Poly) of a tuple-valued expression; None when it cannot be told."""
+    from ..terms import FlowNormalizer, Poly
+
+    if depth > 10:
+        return None
+
+    def ln(x: ast.AST):
+        d = dotted(x)
+        return Poly.atom(f"len({d})") if d else None
+
+    def scalar(x: ast.AST):
+        def hook(nz, call):
+            if call_name(call) == "len" and len(call.args) == 1:
+                return _seq_length(df, at, call.args[0], depth + 1)
+            return None
+
+        return FlowNormalizer(df, at, call_hook=hook).norm(x)
+
+    if isinstance(e, (ast.Tuple, ast.List)):
+        return None if any(isinstance(x, ast.Starred) for x in e.elts) else Poly.const(len(e.elts))
+    if isinstance(e, ast.BinOp) and isinstance(e.op, ast.Add):
+        a, b = _seq_length(df, at, e.left, depth + 1), _seq_length(df, at, e.right, depth + 1)
+        return None if a is None or b is None else a + b
+    if isinstance(e, ast.Call) and call_name(e) in ("tuple", "list") and len(e.args) == 1:
+        return _seq_length(df, at, e.args[0], depth + 1)
+    if isinstance(e, ast.Call) and call_name(e) == "range" and len(e.args) in (1, 2):
+        hi = scalar(e.args[-1])
+        lo = scalar(e.args[0]) if len(e.args) == 2 else Poly.const(0)
+        return hi - lo
+    if isinstance(e, ast.Call) and last_attr(e) == "validate_chunks" and e.args:
+        return _seq_length(df, at, e.args[0], depth + 1)  # one chunk specification per axis of the shape
+    if isinstance(e, ast.Subscript) and isinstance(e.slice, ast.Slice) and e.slice.upper is None and e.slice.step is None:
+        base = _seq_length(df, at, e.value, depth + 1)
+        lo = e.slice.lower
+        if base is not None and (lo is None or (isinstance(lo, ast.Constant) and isinstance(lo.value, int) and lo.value >= 0)):
+            return base - Poly.const(lo.value if lo is not None else 0)
+        return None
+    if isinstance(e, ast.Name):
+        d = df.single_def(at, e.id)
+        if d is not None and d.kind == "assign" and d.value is not None:
+            st = df.cfg.nodes[d.node].ast
+            if isinstance(st, ast.Assign) and any(isinstance(t, ast.Name) and t.id == e.id for t in st.targets):
+                return _seq_length(df, d.node, d.value, depth + 1)
+        return None
+    if isinstance(e, ast.Attribute):
+        return ln(e)
+    return None
+
+
+def _check_newaxis(ctx) -> None:
+    rule = "R-NEWAXIS"
+    f = ctx.repo.method(IAM, "_FieldBuilder", "build")
+    df = DataFlow(f.node)
+    maps = [c for c in walk_no_nested(f.node) if isinstance(c, ast.Call) and last_attr(c) == "map_blocks"]
+    ctx.require(len(maps) == 1, f"{f.qualname}: expected one map_blocks call")
+    c = maps[0]
+    at = cfg_stmt_of(df, f.node, c).idx
+    ch, na = kw(c, "chunks"), kw(c, "new_axis")
+    ctx.require(ch is not None and na is not None and len(c.args) >= 2, f"{f.qualname}: map_blocks without chunks= / "
+                "new_axis= / a block array")
+    out_dims = _seq_length(df, at, ch)
+    ctx.require(out_dims is not None, f"{f.qualname}: cannot tell the number of axes of chunks `{norm_text(ch)[:50]}`")
+    # the mapped array of blocks has one axis per ensemble axis: ensemble_blocks(chunks of the ensemble shape)
+    blocks = c.args[1]
+    bd = df.single_def(at, blocks.id) if isinstance(blocks, ast.Name) else None
+    ctx.require(bd is not None and isinstance(bd.value, ast.Call) and last_attr(bd.value) == "ensemble_blocks",
+                f"{f.qualname}: the mapped blocks are not self.ensemble_blocks(...)")
+    from ..terms import Poly
+
+    in_dims = Poly.atom("len(self.ensemble_shape)")
+    added = out_dims - in_dims
+    defs = df.reaching(at, na.id) if isinstance(na, ast.Name) else []
+    ctx.require(bool(defs) and all(d.kind == "assign" and d.value is not None for d in defs),
+                f"{f.qualname}: new_axis is not a local with plain definitions")
+    for k, d in enumerate(sorted(defs, key=lambda d_: d_.node)):
+        got = _seq_length(df, d.node, d.value)
+        ctx.require(got is not None, f"{f.qualname}: cannot count the axes in `{norm_text(d.value)[:50]}`")
+        ctx.check(got == added, rule, f"{f.qualname}:new_axis definition #{k + 1}", f.loc(d.value),
+                  f"{got.key()} new axes = axes of the chunks ({out_dims.key()}) - ensemble axes",
+                  f"`{norm_text(d.value)[:70]}` declares {got.key()} new axes, but the chunks have {out_dims.key()} axes "
+                  f"and the mapped blocks {in_dims.key()}: dask assembles the lazy array with another rank than the eager "
+                  "arm allocates, so lazy and eager builds disagree (or the lazy one fails on compute)",
+                  key_detail="count")
+
+
+def run(ctx) -> None:  # noqa: F811
+    from ..rules import deferred
+
+    ctx.rule("R-NEWAXIS", "_FieldBuilder.build, lazy arm: the number of axes in every definition of `new_axis` handed to "
+             "da.map_blocks equals the number of axes of `chunks` minus the axes of the mapped block array (one per "
+             "ensemble axis) — a symbolic tuple-length calculus (len of concatenations, slices [k:], range(a, b), "
+             "validate_chunks(shape, ..) has one entry per axis of shape).  The eager arm allocates ensemble_shape + "
+             "(window,) + base_shape[1:]; a lazy array of another rank is not the same array")
+    deferred.run(ctx, lambda: _check_newaxis(ctx), _inner_run_c10d)
